@@ -587,6 +587,10 @@ class PrecipitateModel (PrecipitateBase):
                 growthRate = self.growth[p]
                 xEqAlpha = self.pData.xEqAlpha[self.pData.n, p]
                 xEqBeta = self.pData.xEqBeta[self.pData.n, p]
+                #If there are no previous values yet (no calculation has converged so far), use a table of zeros, as for unstable precipitates
+                if self.PSDXalpha[p] is None or self.PSDXbeta[p] is None:
+                    self.PSDXalpha[p] = np.zeros((self.PBM[p].bins + 1, self.numberOfElements))
+                    self.PSDXbeta[p] = np.zeros((self.PBM[p].bins + 1, self.numberOfElements))
         else:
             growth, xAlpha, xBeta, xEqAlpha, xEqBeta = growth_result
             #Update interfacial composition for each precipitate size
